@@ -333,7 +333,7 @@ func (w *c07World) c07DenomCode(denom string) string {
 
 type c07Obs struct {
 	next  uint64
-	pools [][2]int64 // (token index, seq), newest first
+	pools [][2]int64          // (token index, seq), newest first
 	bal   map[string]*big.Int // code|dcode
 	sup   map[string]*big.Int
 	pbal  map[string]*big.Int // pair|code
